@@ -34,6 +34,7 @@ const (
 type poolServer struct {
 	ln       *Listener
 	path     string
+	tag      uint32 // echoed in the flags field of every reply: tells which listener served the request
 	streams  int64
 	replies  int64
 	closedBy int64
@@ -81,6 +82,7 @@ func (ps *poolServer) serve(s *Stream) {
 		out := make([]byte, poolHdr+n)
 		binary.BigEndian.PutUint64(out[0:8], id)
 		binary.BigEndian.PutUint32(out[8:12], uint32(n))
+		binary.BigEndian.PutUint32(out[12:16], ps.tag)
 		copy(out[poolHdr:], payload)
 		if flags&(poolFlagClose|poolFlagCloseLag) != 0 && !closing {
 			closing = true
@@ -118,7 +120,12 @@ func (ps *poolServer) serve(s *Stream) {
 }
 
 func startPoolServer() (*poolServer, error) {
-	ps := &poolServer{path: filepath.Join(sockDir(), fmt.Sprintf("pool%d.sock", atomic.AddUint64(&pairSeq, 1)))}
+	return startPoolServerAt(filepath.Join(sockDir(), fmt.Sprintf("pool%d.sock", atomic.AddUint64(&pairSeq, 1))), 0, true)
+}
+
+// startPoolServerAt listens on path (replacing a previous listener's socket file, as a restarted server does).
+func startPoolServerAt(path string, tag uint32, run bool) (*poolServer, error) {
+	ps := &poolServer{path: path, tag: tag}
 	cfg := NewDefaultListenerConfig(ps.path, "unix")
 	cfg.LogOutput = nil
 	ln, err := NewListener(ps, cfg)
@@ -126,7 +133,10 @@ func startPoolServer() (*poolServer, error) {
 		return nil, err
 	}
 	ps.ln = ln
-	go ln.Run()
+	ln.SetUnlinkOnClose(false)
+	if run {
+		go ln.Run()
+	}
 	return ps, nil
 }
 
